@@ -1,7 +1,7 @@
 """C27 file persister crash safety: theorems Props.C27 + stream `crash` (write budget = crash point, reopen)"""
 import vlib
 
-THEOREMS = ['C27_crash_safe', 'C27_further_stores', 'reopen_safe', 'C27_finding_message_before_control']
+THEOREMS = ['C27_crash_safe', 'C27_further_stores', 'C27_repeated_crashes', 'reopen_safe', 'C27_finding_message_before_control']
 
 
 def writes_of(ops):
@@ -49,10 +49,22 @@ def gen(rng, n, maxops, all_points):
             lines += render(ops)
             lines.append('reopen')
             lines += ['get %d' % x for x in keys] + ['cget']
+            # second life: half of the runs crash again, at a point of their own (C27_repeated_crashes)
+            if more and rng.random() < 0.5:
+                lines.append('budget %d' % rng.randrange(0, writes_of(more) + 1))
             lines += render(more)
             lines += ['get %d' % x for x in keys] + ['cget']
             lines.append('reopen')
             lines += ['get %d' % x for x in keys] + ['cget']
+            # third life, sometimes: stores again what the crashes may have cut, then a last reopen
+            if rng.random() < 0.3:
+                third = gen_hist(rng, rng.randrange(1, 4), False)
+                third = [(o[0], rng.choice(keys), o[2]) if o[0] == 'put' and rng.random() < 0.6 else o for o in third]
+                if rng.random() < 0.5:
+                    lines.append('budget %d' % rng.randrange(0, writes_of(third) + 1))
+                lines += render(third)
+                lines.append('reopen')
+                lines += ['get %d' % x for x in keys] + ['cget']
     return lines
 
 
@@ -78,7 +90,8 @@ class Oracle:
                 if not self.any_ctrl:
                     self.msg_before_ctrl = True
                 if k == 0 or k in self.done:
-                    return (False, None)
+                    # a number whose message was lost to the first control store (known finding) can be stored again
+                    return (False, klass if k != 0 else None)
                 self.done[k] = b; self.started.setdefault(k, []).append(b)
             else:
                 self.started.setdefault(k, []).append(b)   # the data write may have completed
@@ -86,6 +99,10 @@ class Oracle:
         if w[0] == 'cput':
             if out == 'true':
                 self.ctrl = (int(w[1]), int(w[2])); self.any_ctrl = True
+            return (None, None)
+        if w[0] in ('get', 'cget') and self.budget is not None:
+            # a life under a crash point: past that point the process is dead, what its memory holds (e.g. `_index[0]`
+            # updated before the failed write) is not observable; the property speaks about what is read after the reopen
             return (None, None)
         if w[0] == 'get':
             k = int(w[1])
@@ -111,7 +128,7 @@ def run(res, replay=None):
                         'a crash after k completed writes is realised by failing every later write() on the two store files (interposed write, errno EIO), destroying the object and reopening the files',
                         'histories that store a message before any control record are the known finding message-before-control (index record 0 is overwritten by the first control store)']
     res.cov['rule'] = ('histories of 1..6 (quick) / 1..9 (thorough) put/control stores, 80% starting with a control store; EVERY crash point 0..W (W = number of write() calls of the history) is run: '
-                       'budget, history, reopen, read back every key and the control record, further stores, read back, reopen, read back. distinct by (history, crash point, position)')
+                       'budget, history, reopen, read back every key and the control record, further stores (half of them under a second crash point), read back, reopen, read back, in 30% a third life (again with or without a crash point) and a last reopen. distinct by (history, crash point, position)')
     res.cov['exhaustive'] = False
     cnt = [0]
     def nontrivial(l):
